@@ -21,6 +21,7 @@ package checker
 //@   names failed
 //@   property C20
 //@   inline
+//@   splitreturns
 //@   requires c != nil
 //@   requires forall i :: 0 <= i && i < len(c.steps) ==> c.steps[i] != 0
 //@   ensures in-order-stop-at-first-failure: exists k :: 0 <= k && k <= len(c.steps) && tn == old(tn) + (failed ? k + 1 : k) &&
